@@ -968,24 +968,36 @@ make_task(echs_toid_t oid)
 static void
 free_task(_task_t t)
 {
-/* hand task T over to free list */
-	/* free from our task hash table */
-	with (size_t i = get_task_slot(t->t->oid)) {
-		if (UNLIKELY(i >= ztask_ht || task_ht[i].oid != t->t->oid)) {
-			/* that's no good :O */
-			ECHS_NOTI_LOG("inconsistent table of tasks");
-			break;
+/* hand task T over to free list
+ * if children of T are still running their watchers point to T, in that
+ * case only take T off the table and leave the slot to chld_cb() */
+	if (LIKELY(t->t != NULL)) {
+		/* free from our task hash table */
+		with (size_t i = get_task_slot(t->t->oid)) {
+			if (UNLIKELY(i >= ztask_ht ||
+				     task_ht[i].oid != t->t->oid)) {
+				/* that's no good :O */
+				ECHS_NOTI_LOG("inconsistent table of tasks");
+				break;
+			}
+			task_ht[i] = (struct tmap_s){0U, NULL};
 		}
-		task_ht[i] = (struct tmap_s){0U, NULL};
-	}
 
-	if (LIKELY(t->dflt_cred.wd != NULL)) {
-		free(deconst(t->dflt_cred.wd));
+		if (LIKELY(t->dflt_cred.wd != NULL)) {
+			free(deconst(t->dflt_cred.wd));
+		}
+		if (LIKELY(t->dflt_cred.sh != NULL)) {
+			free(deconst(t->dflt_cred.sh));
+		}
+		free_echs_task(t->t);
+		t->dflt_cred.wd = t->dflt_cred.sh = NULL;
+		t->t = NULL;
 	}
-	if (LIKELY(t->dflt_cred.sh != NULL)) {
-		free(deconst(t->dflt_cred.sh));
+	if (UNLIKELY(t->nsim)) {
+		/* the last child will call us again */
+		t->w.reschedule_cb = NULL;
+		return;
 	}
-	free_echs_task(t->t);
 
 	t->next = free_tasks;
 	free_tasks = t;
@@ -2208,8 +2220,15 @@ chld_cb(EV_P_ ev_child *c, int UNUSED(revents))
 	c->rpid = c->pid = 0;
 	t->nsim--;
 
-	if (UNLIKELY(t->w.reschedule_cb == NULL)) {
-		/* we promised taskB_cb to kill this guy */
+	if (UNLIKELY(t->t == NULL)) {
+		/* task has been cancelled or retired in the meantime
+		 * the last child hands the slot back */
+		if (!t->nsim) {
+			free_task(t);
+		}
+	} else if (UNLIKELY(t->w.reschedule_cb == NULL) && !t->nsim) {
+		/* we promised taskB_cb to kill this guy
+		 * once the last of his children is gone */
 		unsched(EV_A_ &t->w, 0);
 	}
 	free_chld(c);
